@@ -147,10 +147,68 @@ type SegObs struct {
 }
 
 type RunObs struct {
-	CompileErr string    `json:"compile_err,omitempty"`
-	Ref        *SegObs   `json:"ref,omitempty"`
-	Segs       []*SegObs `json:"segs,omitempty"`
-	Finished   bool      `json:"finished"`
+	CompileErr string     `json:"compile_err,omitempty"`
+	Ref        *SegObs    `json:"ref,omitempty"`
+	Segs       []*SegObs  `json:"segs,omitempty"`
+	Finished   bool       `json:"finished"`
+	RefScheds  []SchedObs `json:"ref_scheds,omitempty"`
+	Scheds     []SchedObs `json:"scheds,omitempty"`
+}
+
+// SchedObs: the collection orders (taskManager.waitOne receive order, from the C03 protocol
+// trace) of the successive task managers of one eager (workflow) graph, in order of creation.
+type SchedObs struct {
+	Graph  int     `json:"g"`
+	Orders [][]int `json:"orders"`
+}
+
+// collectScheds reads the protocol trace recorded since the last VerifC03Begin. A task manager
+// is attributed to the graph of the first task it submits (node ids are unique over the case);
+// one that never submits a task collects nothing and is dropped.
+func collectScheds(c *Case) []SchedObs {
+	evs := compose.VerifC03Events()
+	ix := newIndex(c)
+	tmGraph := map[int]int{}
+	var tmOrder []int
+	recv := map[int][]int{}
+	for _, ev := range evs {
+		switch ev.Kind {
+		case "spawn", "sync":
+			if _, ok := tmGraph[ev.TM]; !ok {
+				id := parseKey(ev.Key)
+				gi, known := ix.gOf[id]
+				if !known {
+					gi = -1
+				}
+				tmGraph[ev.TM] = gi
+				tmOrder = append(tmOrder, ev.TM)
+			}
+		case "recv":
+			recv[ev.TM] = append(recv[ev.TM], parseKey(ev.Key))
+		}
+	}
+	byGraph := map[int][][]int{}
+	var gs []int
+	for _, tm := range tmOrder {
+		gi := tmGraph[tm]
+		if gi < 0 || c.Graphs[gi].Mode != "wf" {
+			continue
+		}
+		if _, ok := byGraph[gi]; !ok {
+			gs = append(gs, gi)
+		}
+		order := recv[tm]
+		if order == nil {
+			order = []int{}
+		}
+		byGraph[gi] = append(byGraph[gi], order)
+	}
+	sort.Ints(gs)
+	var out []SchedObs
+	for _, gi := range gs {
+		out = append(out, SchedObs{Graph: gi, Orders: byGraph[gi]})
+	}
+	return out
 }
 
 // mergeChunks concatenates the chunks of an output stream the way eino concatenates
@@ -347,7 +405,19 @@ func Execute(c *Case) *RunObs {
 		obs.CompileErr = err.Error()
 		return obs
 	}
+	eager := hasEager(c)
+	if eager {
+		compose.VerifC03Begin(0, true)
+		defer compose.VerifC03End()
+	}
 	obs.Ref = call(rr, refRec, nil, CallSpec{}, false, c.input())
+	if eager {
+		if obs.Ref.Class != "done" {
+			time.Sleep(3 * time.Millisecond) // abandoned tasks of a failed eager run finish before the next trace starts
+		}
+		obs.RefScheds = collectScheds(c)
+		compose.VerifC03Begin(0, true)
+	}
 
 	rec := newRecorder(true)
 	st := newStore()
@@ -378,6 +448,12 @@ func Execute(c *Case) *RunObs {
 		if c.NoID {
 			break // nothing was stored: the run cannot be resumed
 		}
+	}
+	if eager {
+		if last := obs.Segs[len(obs.Segs)-1]; last.Class != "done" && last.Class != "interrupt" {
+			time.Sleep(3 * time.Millisecond)
+		}
+		obs.Scheds = collectScheds(c)
 	}
 	return obs
 }
